@@ -1,3 +1,3 @@
 SPECIFICATION Spec
-INVARIANTS EquivIsTheTakenState AckedAfterCommit IntroOrderOK RecoveredOpens RecoveredIsPrefix RecoveredHasAcked RecoveredConsistent PostWriteOK RollbackExact PointsAreStates PointsOrdered PointsIncludeNewest PointsHonourKeep SourceUnaffected
+INVARIANTS CommitNamesTheTakenSnapshot EquivIsTheTakenState AckedAfterCommit IntroOrderOK RecoveredOpens RecoveredIsPrefix RecoveredHasAcked RecoveredConsistent PostWriteOK RollbackExact PointsAreStates PointsOrdered PointsIncludeNewest PointsHonourKeep SourceUnaffected
 CHECK_DEADLOCK FALSE
